@@ -21,8 +21,28 @@
  *   items: id:prio,id:prio,... ('.' when empty) walked forward; the backward walk (list_prev) must be
  *   the exact reverse and must close on the ghost / ring head, otherwise BROKEN(...) is printed instead.
  *   ret: '-' | id:prio (popped, chopped) | id:prio<prev (removed; prev = id:prio or g) | 0/1
- * A case that crashes or loops (corrupted structure) is abandoned through a signal handler. */
+ * A case that crashes or loops (corrupted structure) is abandoned through a signal handler.
+ *
+ * CONCURRENT cases (T-sched):  conc I: id p ... / op ; op ; ... / op ; ... / S: t t t ...
+ *   "I:" the initial contents of list 0, then one section per thread (locked operations on list 0
+ *   only, same syntax, L must be 0; V in l d f t u v), last the schedule.  Each thread is a cosched
+ *   coroutine; the scheduling points are the lock attempts and unlocks (interpose.h) and one yield
+ *   between the operations of a thread.  After the schedule (then round-robin to completion):
+ *   out:  T0 res@inv-resp ... / T1 ... / L <forward walk, checked against the backward walk> /
+ *         D <the list drained with nolock_pop_back> / steps n n ...[ DEADLOCK]
+ *   res: '-' | id:prio | 0/1 | [ring items] (unchain); inv/resp = global step numbers.
+ *   With -DVERIF_RACE (clang -fsanitize=thread + tsanrt.c) there is no macro interposition: every
+ *   plain or atomic access to the list head, its lock and the items is a scheduling point. */
+#ifndef BUILDING_PARSEC
 #define BUILDING_PARSEC 1   /* inline atomics, as inside the library */
+#endif
+#if defined(VERIF_RACE)
+#include "parsec/parsec_config.h"
+extern void race_share(const void *p, unsigned long len); extern void race_reset(void);
+#else
+#include "interpose.h"
+#endif
+#include "cosched.h"
 #include "parsec/class/parsec_object.c"
 #include "parsec/class/parsec_list.c"
 #include "parsec/class/parsec_dequeue.c"
@@ -258,7 +278,115 @@ static int do_op(char **t, int n) {
     return 0;
 }
 
+
+/* ------------------------------------------------------------------ concurrent cases */
+#define MAXCT 8
+#define MAXCOPS 16
+typedef struct { char o[3]; char v; parsec_list_item_t *arg; } cop_t;          /* arg: item or ring */
+typedef struct { int kind; parsec_list_item_t *p; int b; long inv, res; } cres_t; /* kind 0 '-', 1 item, 2 bool, 3 ring */
+typedef struct { int nops; cop_t ops[MAXCOPS]; cres_t res[MAXCOPS]; } cthr_t;
+static cthr_t CT[MAXCT];
+static long now_(void) { long s = 0; for (int i = 0; i < cos_n; i++) s += cos_steps[i]; return s; }
+
+static void conc_worker(void *a) {
+    int t = (int)(intptr_t)a; cthr_t *T = &CT[t]; parsec_list_t *l = &lists[0];
+    for (int i = 0; i < T->nops; i++) {
+        if (i > 0) cos_yield();                      /* operation boundaries are step boundaries */
+        cop_t *op = &T->ops[i]; cres_t r; memset(&r, 0, sizeof r);
+        const char *o = op->o; char v = op->v; parsec_list_item_t *it = NULL;
+        r.inv = now_();
+        if (!strcmp(o, "pf")) { if (v == 'd') parsec_dequeue_push_front(l, op->arg); else parsec_list_push_front(l, op->arg); }
+        else if (!strcmp(o, "pb")) { if (v == 'd') parsec_dequeue_push_back(l, op->arg); else if (v == 'f') parsec_fifo_push(l, op->arg); else parsec_list_push_back(l, op->arg); }
+        else if (!strcmp(o, "of")) {
+            switch (v) { case 'd': it = parsec_dequeue_pop_front(l); break; case 'f': it = parsec_fifo_pop(l); break;
+                         case 't': it = parsec_list_try_pop_front(l); break; case 'u': it = parsec_dequeue_try_pop_front(l); break;
+                         case 'v': it = parsec_fifo_try_pop(l); break; default: it = parsec_list_pop_front(l); }
+            r.kind = 1; r.p = it;
+        } else if (!strcmp(o, "ob")) {
+            switch (v) { case 'd': it = parsec_dequeue_pop_back(l); break; case 't': it = parsec_list_try_pop_back(l); break;
+                         case 'u': it = parsec_dequeue_try_pop_back(l); break; default: it = parsec_list_pop_back(l); }
+            r.kind = 1; r.p = it;
+        }
+        else if (!strcmp(o, "cf")) { if (v == 'd') parsec_dequeue_chain_front(l, op->arg); else parsec_list_chain_front(l, op->arg); }
+        else if (!strcmp(o, "cb")) { if (v == 'd') parsec_dequeue_chain_back(l, op->arg); else if (v == 'f') parsec_fifo_chain(l, op->arg); else parsec_list_chain_back(l, op->arg); }
+        else if (!strcmp(o, "ps")) parsec_list_push_sorted(l, op->arg, OFF);
+        else if (!strcmp(o, "cs")) parsec_list_chain_sorted(l, op->arg, OFF);
+        else if (!strcmp(o, "so")) parsec_list_sort(l, OFF);
+        else if (!strcmp(o, "ie")) { int e = (v == 'd') ? parsec_dequeue_is_empty(l) : (v == 'f') ? parsec_fifo_is_empty(l) : parsec_list_is_empty(l); r.kind = 2; r.b = e ? 1 : 0; }
+        else if (!strcmp(o, "un")) { it = parsec_list_unchain(l); r.kind = 3; r.p = it; }
+        r.res = now_();
+        T->res[i] = r;                               /* recorded in one go, after the call has returned */
+    }
+}
+
+static int split(char *s, const char *sep, char **out_, int max) {
+    int n = 0; char *save = NULL;
+    for (char *p = strtok_r(s, sep, &save); p && n < max; p = strtok_r(NULL, sep, &save)) out_[n++] = p;
+    return n;
+}
+
+static void run_conc(char *line) {
+    static char *sec[MAXCT + 3]; static char *opv[MAXCOPS + 1]; static char *tok[2100]; static long sched[8192];
+    int nsec = split(line + 5, "/", sec, MAXCT + 3);
+    if (nsec < 3) { emit("<bad case>\n"); return; }
+    int nt = nsec - 2;
+    PARSEC_OBJ_CONSTRUCT(&lists[0], parsec_list_t);
+    parsec_list_t *l = &lists[0];
+    /* initial contents */
+    { int n = split(sec[0], " ", tok, 2100); parsec_list_item_t *ring;
+      if (n < 1 || strcmp(tok[0], "I:") || mk_ring(tok + 1, n - 1, &ring)) { emit("<bad case>\n"); return; }
+      if (ring) parsec_list_nolock_chain_back(l, ring); }
+    for (int t = 0; t < nt; t++) {
+        cthr_t *T = &CT[t]; memset(T, 0, sizeof *T);
+        int no = split(sec[1 + t], ";", opv, MAXCOPS + 1);
+        if (no < 1 || no > MAXCOPS) { emit("<bad case>\n"); return; }
+        T->nops = no;
+        for (int i = 0; i < no; i++) {
+            int n = split(opv[i], " ", tok, 2100); cop_t *op = &T->ops[i];
+            if (n < 3 || strlen(tok[0]) != 2 || strlen(tok[1]) != 1 || strcmp(tok[2], "0") || !strchr("ldftuv", tok[1][0])) { emit("<bad case>\n"); return; }
+            strcpy(op->o, tok[0]); op->v = tok[1][0]; op->arg = NULL;
+            const char *o = op->o; int ok = 0;
+            if ((!strcmp(o, "pf") || !strcmp(o, "pb") || !strcmp(o, "ps")) && n == 5) {
+                elt_t *e = new_item(atol(tok[3]), atol(tok[4])); if (e) { op->arg = &e->super; ok = 1; }
+            } else if ((!strcmp(o, "cf") || !strcmp(o, "cb")) && n >= 5) { ok = !mk_ring(tok + 3, n - 3, &op->arg); }
+            else if (!strcmp(o, "cs")) { ok = !mk_ring(tok + 3, n - 3, &op->arg); }
+            else if ((!strcmp(o, "of") || !strcmp(o, "ob") || !strcmp(o, "so") || !strcmp(o, "ie") || !strcmp(o, "un")) && n == 3) ok = 1;
+            if (!ok) { emit("<bad case>\n"); return; }
+        }
+    }
+    int ns;
+    { char *p = sec[nsec - 1]; while (*p == ' ') p++; if (strncmp(p, "S:", 2)) { emit("<bad case>\n"); return; } p += 2; ns = hc_ints(&p, sched, 8192); }
+#if defined(VERIF_RACE)
+    race_reset(); race_share(&lists[0], sizeof lists[0]); race_share(pool, sizeof(elt_t) * (size_t)npool);
+#endif
+    cos_reset();
+    for (int t = 0; t < nt; t++) cos_spawn(conc_worker, (void *)(intptr_t)t);
+    int dl = cos_run(sched, ns, 1000);
+    cos_cur = -1;
+    for (int t = 0; t < nt; t++) {
+        emit("%sT%d", t ? " / " : "", t);
+        for (int i = 0; i < CT[t].nops; i++) {
+            cres_t *r = &CT[t].res[i];
+            emit(" ");
+            if (r->res == 0) { emit("?"); continue; }                /* not completed (deadlock) */
+            if (r->kind == 1) { if (!r->p) emit("-"); else if (in_pool(r->p)) pitem(r->p); else emit("WILD"); }
+            else if (r->kind == 2) emit("%d", r->b);
+            else if (r->kind == 3) { emit("["); walk(NULL, NULL, r->p, 1); emit("]"); }
+            else emit("-");
+            emit("@%ld-%ld", r->inv, r->res);
+        }
+    }
+    emit(" / L "); show_list(l);
+    emit(" / D ");
+    { int n = 0; parsec_list_item_t *it;
+      while (n <= npool + 1 && (it = parsec_list_nolock_pop_back(l))) { if (n) emit(","); if (in_pool(it)) pitem(it); else { emit("WILD"); break; } n++; }
+      if (n == 0) emit("."); if (n > npool + 1) emit(",CYCLE"); }
+    emit(" / steps"); for (int t = 0; t < nt; t++) emit(" %d", cos_steps[t]);
+    if (dl) emit(" DEADLOCK");
+    emit("\n");
+}
 static void run_case(char *line) {
+    if (!strncmp(line, "conc ", 5)) { run_conc(line); return; }
     static char *ops[4096]; int nops = 0;
     for (char *s = strtok(line, ";"); s && nops < 4096; s = strtok(NULL, ";")) ops[nops++] = s;
     PARSEC_OBJ_CONSTRUCT(&lists[0], parsec_list_t);
